@@ -5,6 +5,7 @@ package codon
 // C06: translation implements the NCBI genetic codes codon by codon.
 //
 // verif:bound C06 codon clause: all 25 table ids x every codon over {A,C,G,T,a,c,g,t}^3 (complete: the solver decides all 512 spellings of the 64 codons per table)
+// verif:bound C06 table-pair clause: every ordered pair of different tables (quick: pairs whose codes differ) used in sequence i, j, i on a symbolic upper-case codon
 // verif:bound C06 start/stop lists: closed comparison for the 25 tables (no symbolic input)
 // verif:bound C06 concatenation/partial-codon/case clauses: tables 1, 2, 11 and one more chosen by VERIF_SEED, strings over {A,C,G,T,a,c,g,t} of length 1..7 (quick) / 1..10 (thorough), every codon-boundary split
 // verif:bound C06 long-input clause: strings of about 1023, 2046, 2049, 4095, 4098 (+0..2) letters (quick) and further sizes up to 65538 (thorough): a concrete periodic body with 13 symbolic letters at the start, middle and end; splits at the first, middle and last codon boundary
@@ -43,6 +44,28 @@ func Harness_C06_StartStop() {
 		}
 	}
 	vAssert(n == 64, "sixty-four-codons")
+}
+
+// two different tables used one after the other in the same process: no state may carry over
+func Harness_C06_TablePairs() {
+	i := vChoice(len(ncbiIDs))
+	j := vChoice(len(ncbiIDs))
+	if i == j {
+		vAssume(false)
+	}
+	if vTier(0, 1) == 0 && ncbiCode(ncbiIDs[i]) == ncbiCode(ncbiIDs[j]) {
+		vAssume(false)
+	}
+	cod := vBytes(3, "ACGT")
+	pos := ncbiPosTable()
+	idx := vTable(pos, cod[0])*16 + vTable(pos, cod[1])*4 + vTable(pos, cod[2])
+	for _, id := range []int{ncbiIDs[i], ncbiIDs[j], ncbiIDs[i]} {
+		got, err := Translate(cod, GetCodonTable(id))
+		vAssert(err == nil && len(got) == 1, "one-residue-per-codon")
+		if len(got) == 1 {
+			vAssert(got[0] == vTable(ncbiCode(id), idx), "codon-translates-to-ncbi-assignment-after-another-table-was-used")
+		}
+	}
 }
 
 func c06Upper(s string) string {
